@@ -110,3 +110,96 @@ Proof. exact fixed_ghost_gone. Qed.
 Example C18_hypA_satisfiable_pinned :
   hypA E_ghost [Wake p_ghost; Pad p_ghost] (Wake p_ghost).
 Proof. exact pinned_hypA_example. Qed.
+
+(** ------------------------------------------------------------------------------------------------
+    Second wave.
+
+    (a) Tie to the CURRENT source through the translator: [Gen/Gen_EField.v] is regenerated from
+    ElectricField::padBunchProfiles / wakePotential / updateCSR on every run (translate/efield2coq.py) as
+    programs [gen_pad_prog], [gen_wake_prog], [gen_csr_prog] of the statement language of
+    Model/EFieldProg.v.  Run by the interpreter they compute, buffer by buffer and cell by cell, what the
+    model's [step] computes - for every [env] (all sizes, bucket lists, spacings, whatever the transforms and
+    kernels compute), and therefore history independence holds for the generated programs themselves.
+    [kcsr] is the cell kernel of updateCSR with the frequency-axis index and the impedance index as separate
+    arguments; the model's [csrcell] is its diagonal. *)
+From Inovesa Require Import Model.EFieldProg Gen.Gen_EField Proofs.EFieldProgP Proofs.EFieldGenP Model.EField2 Proofs.EField2P.
+
+Theorem C18_generated_programs_are_the_model :
+  forall (T C : Type) (E : env T C) (kcsr : T -> Z -> Z -> C -> T),
+    rz E = true -> (forall cut i x, kcsr cut i i x = csrcell E cut i x) -> 0 <= nmax E ->
+  forall (h : list (op T)) (s1 s2 : state T C), steq s1 s2 ->
+    steq (prog_run E kcsr gen_pad_prog gen_wake_prog gen_csr_prog h s1) (run E h s2).
+Proof. exact @gen_run_is_model. Qed.
+Print Assumptions C18_generated_programs_are_the_model.
+
+Theorem C18_generated_history_independence :
+  forall (T C : Type) (E : env T C) (kcsr : T -> Z -> Z -> C -> T),
+    rz E = true -> (forall cut i x, kcsr cut i i x = csrcell E cut i x) -> 0 <= nmax E -> hypB E ->
+  forall (h : list (op T)) (o : op T),
+    observe E o (prog_run E kcsr gen_pad_prog gen_wake_prog gen_csr_prog (h ++ [o]) (fresh E))
+    = observe E o (prog_run E kcsr gen_pad_prog gen_wake_prog gen_csr_prog [o] (fresh E)).
+Proof. exact @gen_history_independence. Qed.
+Print Assumptions C18_generated_history_independence.
+
+(** the set-up the model assumes (all work buffers allocated with [nmax] cells and zeroed completely: [fresh];
+    forward plan bp -> ff, inverse plan wl -> wp, both of length nmax) is what the constructor, _initWakeLossFFT
+    and fft::fft_alloc_real/complex say (generated) *)
+Theorem C18_generated_setup_is_model :
+  forall N : Z,
+    gen_alloc_real_zeroed N = N /\ gen_alloc_complex_zeroed N = 2 * N /\
+    gen_buffers N = [(Bbp, false, N); (Bff, true, N); (Bwl, true, N); (Bwp, false, N)] /\
+    gen_plan_fwd N = (N, Bbp, Bff) /\ gen_plan_inv N = (N, Bwl, Bwp).
+Proof. exact gen_setup_is_model. Qed.
+Print Assumptions C18_generated_setup_is_model.
+
+(** (b) Extended operation set: getters anywhere in the history, and TWO field objects in one process
+    (src/main.cpp: the radiation field and the wake field, different transform lengths, same PhaseSpace).
+    Model/EField2.v: every object owns its buffers and plans, FFTWWrapper.cpp has no static buffer; a
+    call on one object leaves the other object's state as it is ([step2]).  For every interleaving [h] of
+    calls and getters on both objects, a call [o] on object [w], and any continuation [h'] that makes no
+    further call on [w] (getters on [w], anything on the other object): each getter of [o] returns what it
+    returns after [o] on a freshly constructed object. *)
+Theorem C18_history_independence_two_objects :
+  forall (T C : Type) (E1 E2 : env T C) (w : who),
+    rz (envof E1 E2 w) = true -> hypB (envof E1 E2 w) -> 0 <= nmax (envof E1 E2 w) ->
+  forall (h : list (who * xop T)) (o : op T) (h' : list (who * xop T)) (g : getter),
+    quiet w h' = true -> reads_of o g = true ->
+    gread (envof E1 E2 w) g (sel w (run2 E1 E2 (h ++ (w, XCall o) :: h') (fresh2 E1 E2)))
+    = gread (envof E1 E2 w) g (step (envof E1 E2 w) o (fresh (envof E1 E2 w))).
+Proof. exact @history_independence2. Qed.
+Print Assumptions C18_history_independence_two_objects.
+
+Theorem C18_history_independence_two_objects_observe :
+  forall (T C : Type) (E1 E2 : env T C) (w : who),
+    rz (envof E1 E2 w) = true -> hypB (envof E1 E2 w) -> 0 <= nmax (envof E1 E2 w) ->
+  forall (h : list (who * xop T)) (o : op T),
+    observe (envof E1 E2 w) o (sel w (run2 E1 E2 (h ++ [(w, XCall o)]) (fresh2 E1 E2)))
+    = observe (envof E1 E2 w) o (run (envof E1 E2 w) [o] (fresh (envof E1 E2 w))).
+Proof. exact @history_independence2_observe. Qed.
+Print Assumptions C18_history_independence_two_objects_observe.
+
+(** getters are pure: a history with getters reaches the state of the history without them *)
+Theorem C18_getters_pure :
+  forall (T C : Type) (E : env T C) (h : list (xop T)) (s : state T C),
+    xrun E h s = xrun E (map XCall (calls h)) s.
+Proof. exact @getters_pure. Qed.
+Print Assumptions C18_getters_pure.
+
+(** a call on one object does not touch the other *)
+Theorem C18_other_object_untouched :
+  forall (T C : Type) (E1 E2 : env T C) (w w' : who) (x : xop T) (s : state2 (T:=T) (C:=C)),
+    isobj w w' = false -> sel w (step2 E1 E2 (w', x) s) = sel w s.
+Proof. exact @other_object_untouched. Qed.
+Print Assumptions C18_other_object_untouched.
+
+Example C18_generated_instance :
+  observe E_fixed (Wake p_ghost)
+    (prog_run E_fixed (kcsr_of E_fixed) gen_pad_prog gen_wake_prog gen_csr_prog [CSR 0 p_ghost; Wake p_ghost] (fresh E_fixed))
+  = observe E_fixed (Wake p_ghost) (run E_fixed [Wake p_ghost] (fresh E_fixed)).
+Proof. exact gen_fixed_instance. Qed.
+
+Example C18_two_objects_instance :
+  gread E2_rdtn GPower (sel Obj1 (run2 E2_rdtn E2_wake (h2_example ++ (Obj1, XCall (CSR 0 p2)) :: [(Obj2, XCall (Wake q2)); (Obj1, XGet GSpectrum)]) (fresh2 E2_rdtn E2_wake)))
+  = gread E2_rdtn GPower (step E2_rdtn (CSR 0 p2) (fresh E2_rdtn))
+  /\ quiet Obj1 [(Obj2, XCall (Wake q2)); (Obj1, XGet (T:=Z) GSpectrum)] = true.
+Proof. exact two_objects_example. Qed.
